@@ -79,17 +79,24 @@ Render(b) == IF b.fin = "hid" THEN <<>> ELSE RenderFrom(Tpl(b.tpl), 1, <<>>, <<>
 SInit(w, h, multi, mphid, align) ==
     [w |-> w, h |-> h, multi |-> multi, mphid |-> mphid, align |-> align,
      above |-> <<>>, order |-> <<>>, bars |-> <<>>, ids |-> {}, bottom |-> 0, everBottom |-> align = "bottom", blanked |-> FALSE, faulty |-> FALSE, wasCut |-> FALSE, pty |-> FALSE,
+     unlim |-> FALSE,       \* the MultiProgress draws to a target without refresh rate (term_like): no draw request is ever skipped (set by the monitor from the configuration)
      ghosts |-> FALSE]      \* a member was unlinked by set_draw_target / added again: its old slot still counts for index-based insertion
 
 NewBar(r, vis, inmp) ==
     [tpl |-> r.tpl, msg |-> r.m0, prefix |-> r.p0, pos |-> r.pos0, len |-> r.len, fin |-> "no",
      onfin |-> r.fin, fm |-> r.fm, tabw |-> r.tabw, pend |-> <<>>, drawn |-> FALSE, onscr |-> <<>>,
      vis |-> vis, inmp |-> inmp, alive |-> TRUE, nh |-> 1, static |-> FALSE, mayVanish |-> FALSE,
-     born |-> r.t, weak |-> FALSE]       \* creation time (virtual microseconds); a WeakProgressBar exists
+     born |-> r.t, weak |-> FALSE,
+     unlim |-> ~inmp /\ r.target = "spy"]     \* a stand-alone bar on a target without refresh rate       \* creation time (virtual microseconds); a WeakProgressBar exists
 
 Bar(S, b) == S.bars[b]
 Visible(S, b) == b \in S.ids /\ S.bars[b].vis
 SetBar(S, b, rec) == [S EXCEPT !.bars[b] = rec]
+
+(* Is bar b attached to a target without refresh rate?  Then nothing may skip a draw it requests. *)
+Unlimited(S, b) == b \in S.ids /\ (IF S.bars[b].inmp THEN S.unlim ELSE S.bars[b].unlim)
+(* operations that request a redraw of their bar (Apply: Req) *)
+RequestOps == {"tick", "burst", "inc", "dec", "set_position", "set_length", "unset_length", "inc_length", "dec_length", "set_message", "set_prefix", "reset"}
 
 (* A draw request by bar b: its pending rendering becomes the rendering of *)
 (* its current state.                                                      *)
@@ -211,7 +218,7 @@ Apply(S, r) ==
                               EXCEPT !.order = Remove(S.order, b), !.ghosts = TRUE], <<>>, vis, FALSE)
                  ELSE Plain(S)
             ELSE LET left == IF vis /\ B.drawn THEN [j \in 1..Len(B.onscr) |-> LogItem(B.onscr[j])] ELSE <<>>
-                 IN Plain([SetBar(S, b, [B EXCEPT !.vis = v, !.drawn = FALSE, !.pend = <<>>, !.onscr = <<>>])
+                 IN Plain([SetBar(S, b, [B EXCEPT !.vis = v, !.drawn = FALSE, !.pend = <<>>, !.onscr = <<>>, !.unlim = r.target = "spy"])
                               EXCEPT !.above = S.above \o left, !.order = IF v THEN Append(Remove(S.order, b), b) ELSE Remove(S.order, b),
                                      !.ghosts = S.ghosts \/ (vis /\ B.drawn)])
       [] r.op = "readd" ->
